@@ -1,4 +1,5 @@
 import PlumVerif.Generated.Consts
+import PlumVerif.Generated.Pipeline
 /-
 C16 — executable model of device set-up (pyplumio/devices/__init__.py `PhysicalDevice.async_setup`,
 `PhysicalDevice.request`; pyplumio/devices/ecomax.py `EcoMAX.async_setup`, SETUP_FRAME_TYPES) at
@@ -156,14 +157,29 @@ def indexOf (name : String) : List (Nat × String) → Nat → Nat
   | [], i => i
   | (_, p) :: r, i => if p = name then i else indexOf name r (i + 1)
 
-/-- the configuration of `EcoMAX.async_setup` as read from the source by the translator;
+/-- the handler class `cls` subscribes for the event `name` awaits product information (`await ….get("product")`):
+read from the source of `__init__` and of the handler by the translator (`Gen.handlerWaitsProduct`) -/
+def waitsProduct (cls name : String) : Bool :=
+  Gen.handlerWaitsProduct.any fun r => r.1 == cls && r.2.1 == name && r.2.2.2 == 1
+
+/-- the handler of the data a set-up request `provides` waits for product information: the ecoMAX's own handler does,
+or — for the mixer parameters, which the ecoMAX forwards to one `Mixer` object per listed mixer — the mixers' handler
+does and at least one mixer is listed -/
+def depOf (mixers : Bool) (name : String) : Bool :=
+  waitsProduct "EcoMAX" name || (mixers && name == "mixer_parameters" && waitsProduct "Mixer" name)
+
+/-- the configuration of `EcoMAX.async_setup` as read from the source by the translator: the table the device class
+really uses (`EcoMAX._setup_frames`), in its order; the defaults of `PhysicalDevice.request(retries, timeout)`
+(`inspect.signature`); which handlers wait for product information (`Gen.handlerWaitsProduct`);
 `mixers` = the mixer-parameters response lists at least one mixer -/
 def ecomaxCfg (mixers : Bool) : Cfg :=
-  let tbl := Gen.setupFrames
-  let prod := indexOf "product" tbl 0
-  let ep := indexOf "ecomax_parameters" tbl 0
-  let mp := indexOf "mixer_parameters" tbl 0
-  { n := tbl.length, R := Gen.requestRetries, T := Gen.requestTimeoutMs, product := prod,
-    dep := fun k => k == ep || (mixers && k == mp) }
+  let tbl := Gen.setupFramesOfDevice
+  { n := tbl.length, R := Gen.requestRetries, T := Gen.requestTimeoutMs, product := indexOf "product" tbl 0,
+    dep := fun k => k < tbl.length && depOf mixers (tbl.getD k (0, "")).2 }
+
+/-- `PhysicalDevice.request` as the translator probed it (`Gen.requestProbe`): with `retries = r` and no answer the
+request is transmitted this many times before it raises -/
+def probedTransmissions (r : Nat) : Option Nat :=
+  (Gen.requestProbe.find? fun p => p.1 == r).map (·.2.1)
 
 end PlumVerif.Setup
